@@ -236,3 +236,37 @@ package prover
 //@   assert@def:hash len(bits) == n
 //@   assert@def:hash[A] api.ok ==> keccak.digest(bits, n, 1) == keccak.digest(msg, n, 1)
 //@   assert@def:hash[H] keccak.digest(bits, n, 1) == keccak.digest(msg, n, 1)
+
+// ---------------------------------------------------------------------------------------
+// C08 — off-chain input-hash helpers: Keccak-256 of the fixed-width big-endian packing
+// ---------------------------------------------------------------------------------------
+
+//@ func (*InsertionParameters) ComputeInputHashInsertion
+//@   property C08
+//@   requires 0 <= p.PreRoot && p.PreRoot < bytes.pow256(32) && 0 <= p.PostRoot && p.PostRoot < bytes.pow256(32)
+//@   requires forall j :: 0 <= j && j < len(p.IdComms) ==> 0 <= p.IdComms[j] && p.IdComms[j] < bytes.pow256(32)
+//@   modifies p.InputHash
+//@   let n = 68 + 32 * len(p.IdComms)
+//@   let msg = pack.insBytes(p.StartIndex, p.PreRoot, p.PostRoot, p.IdComms)
+//@   ensures result == nil
+//@   ensures p.InputHash == bytes.beIntFrom(keccakb.hash256(msg, n), 0, 32)
+//@   lemmas minLen_def pow256_mono beByte_lead0 beByte_tail insBytes_sel keccakb_ext
+//@   loop 1
+//@     invariant 0 <= iter && iter <= len(p.IdComms)
+//@     invariant len(data) == 68 + 32 * iter
+//@     invariant forall j :: 0 <= j && j < len(data) ==> data[j] == pack.insByte(p.StartIndex, p.PreRoot, p.PostRoot, p.IdComms, j)
+//@   assert@loop1 len(data) == n
+//@   assert@loop1 keccakb.hash256(data, n) == keccakb.hash256(msg, n)
+
+//@ func (*DeletionParameters) ComputeInputHashDeletion
+//@   property C08
+//@   requires 0 <= p.PreRoot && p.PreRoot < bytes.pow256(32) && 0 <= p.PostRoot && p.PostRoot < bytes.pow256(32)
+//@   modifies p.InputHash
+//@   let B = len(p.DeletionIndices)
+//@   let n = 4 * B + 64
+//@   let msg = pack.delBytes(p.DeletionIndices, p.PreRoot, p.PostRoot, B)
+//@   ensures result == nil
+//@   ensures p.InputHash == bytes.beIntFrom(keccakb.hash256(msg, n), 0, 32)
+//@   lemmas minLen_def pow256_mono beByte_lead0 beByte_tail delBytes_sel keccakb_ext
+//@   assert@def:hashBytes len(data) == n
+//@   assert@def:hashBytes keccakb.hash256(data, n) == keccakb.hash256(msg, n)
